@@ -30,7 +30,7 @@ class BehaviourScript:
 
     def on_impute(self, ci, k, feature_subset, n_samples, nrows):
         rec = self.beh[ci]
-        if k >= len(rec["rows"]):
+        if k >= len(rec["rows"]) or self.cfg["Strategy"] == "default":
             return []
         out = []
         for dr in rec["rows"][k]:
@@ -59,12 +59,13 @@ class BehaviourScript:
 
 
 def scenario_of(beh, cfg):
-    stream = [([F(v) for v in rec["x"]], rec["y"], None, bool(rec["upd"])) for rec in beh]
+    stream = [([F(v) for v in rec["x"]], rec["y"], (rec["n"] if rec.get("n", cfg["NInner"]) != cfg["NInner"] else None),
+               bool(rec["upd"])) for rec in beh]
     faults = {i: rec["fault"] for i, rec in enumerate(beh) if rec["fault"]}
     storage = {"interval": ("interval", cfg["Cap"]), "batch": ("batch",),
                "geometric": ("geometric", cfg["Cap"], cfg.get("P"))}[cfg["StoreKind"]]
     return G.Scenario(cls=cfg["Mode"], d=cfg["D"], names="idx", n_inner=cfg["NInner"], dynamic=cfg["Kind"] == "es",
-                      alpha=F(*cfg["Alpha"]), storage=storage, imputer=cfg["Strategy"],
+                      alpha=F(*cfg["Alpha"]), storage=storage, imputer=cfg["Strategy"], default_value=3,
                       nlab=1 if cfg["ModelKind"] == "scalar" else 2, tables="spec:" + cfg["ModelKind"],
                       stream=stream, faults=faults, numeric=cfg.get("numeric", "fraction"))
 
